@@ -1,4 +1,4 @@
-From TT Require Export Judge.Recv.
-(* provisional: correspondence only; the property-specific [ok] follows *)
+From TT Require Export Judge.RecvOk.
 Definition judge_c06 (steps : list hstep) (impl : list iobs) : verdict :=
-  judge_of true (corr_history steps impl) true.
+  judge_of (hist_scope_b hist_init steps) (corr_history steps impl)
+           (ok_c06 snap_empty steps impl && ok_abstract ah_init steps impl).
